@@ -31,16 +31,19 @@ import sys
 HERE = Path(__file__).resolve().parent
 if str(HERE) not in sys.path:
     sys.path.insert(0, str(HERE))
-for _m in ("srcl", "gen", "psy2t", "coqenc"):
+for _m in ("srcl", "gen", "psy2t", "coqenc", "declcheck"):
     sys.modules.pop(_m, None)
 import srcl      # noqa: E402
 import gen       # noqa: E402
 import psy2t     # noqa: E402
 import coqenc    # noqa: E402
+import declcheck  # noqa: E402
 
 K_UBOUND = "where/upper-bound-as-extent"
 K_NESTED = "where/nested-where-independent-loop"
 K_REDUCT = "where/reduction-argument-indexed"
+K_STRIDE = "where/strided-section-step-dropped"
+K_DONAME = "do/construct-name-case-mismatch"
 
 
 # ---------------------------------------------------------------------------------- implementation side
@@ -117,6 +120,10 @@ def shapes_of(prog, kd):
             for x in srcl.walk_expr(e):
                 if x[0] == "red" and any(y[0] == "sec" for y in srcl.walk_expr(x[2])):
                     out.add(K_REDUCT)
+        for e in srcl.where_exprs(s):
+            for x in srcl.walk_expr(e):
+                if x[0] == "sec" and any(sub[0] == "rng" and len(sub) > 3 for sub in x[2]):
+                    out.add(K_STRIDE)
         f = srcl.first_section(s[1])
         if f is not None and all(sub[0] == ":" for sub in f[2]) and f[1] in kd:
             if any(lb != 1 for lb, _ in kd[f[1]]):
@@ -156,7 +163,7 @@ def run_a(impl, g, prog, nstores, rng, reread=True):
     """-> Case with .failures (list of dicts), .stats"""
     c = Case()
     c.prog, c.decls, c.bnds = prog, g.decls(), g.bnds()
-    c.text = srcl.subroutine_text("sub", prog, c.decls)
+    c.text = srcl.mixcase(srcl.subroutine_text("sub", prog, c.decls), rng)
     c.failures, c.notes = [], []
     c.t1 = c.t2 = c.written = None
     c.kd = {}
@@ -178,6 +185,9 @@ def run_a(impl, g, prog, nstores, rng, reread=True):
     except Exception as e:        # noqa: BLE001
         c.failures.append({"kind": "writer-internal-error", "error": "%s: %s" % (type(e).__name__, str(e)[:300])})
         return c
+    dd = declcheck.compare(c.text, c.written)
+    if dd:
+        c.failures.append({"kind": "declaration-attribute-lost", "differences": dd[:6]})
     if reread:
         try:
             psy2 = impl.read(c.written)
@@ -293,6 +303,8 @@ def classify(c):
         same = s[0] == "ok" and l[0] == "ok" and all(s[1].get(cc, 0) == l[1].get(cc, 0) for cc in srcl.cells(c.decls))
         if same and K_UBOUND in sh:
             return K_UBOUND
+    if K_STRIDE in sh:
+        return K_STRIDE
     if K_NESTED in sh:
         return K_NESTED
     if tr != t and K_UBOUND in sh:
@@ -325,9 +337,12 @@ def prep_b(ctx, impl, items, tag, budget=1e9):
         except Exception as e:    # noqa: BLE001
             r["internal_error"] = "%s: %s" % (type(e).__name__, str(e)[:300])
             r["written"] = None
-        (d / (name + "_o.f90")).write_text(text)
-        if r["written"] is not None:
-            (d / (name + "_w.f90")).write_text(r["written"])
+        if r["written"] is not None and not name.startswith("a_wit_"):
+            r["decl_diffs"] = declcheck.compare(text, r["written"])
+        if not name.startswith("t"):             # names t<k>: text-level oracle only, not compiled
+            (d / (name + "_o.f90")).write_text(text)
+            if r["written"] is not None:
+                (d / (name + "_w.f90")).write_text(r["written"])
         res.append(r)
     ctx.log("route (b): %d programs read and re-written in %.0fs" % (len(res), time.time() - t0))
     return d, res
@@ -366,17 +381,24 @@ def judge_b(r):
     """-> None if the property holds on this program, else a description"""
     if r.get("internal_error"):
         return "internal error: " + r["internal_error"]
+    decl = None
+    if r.get("decl_diffs"):
+        decl = ("declaration attributes that affect behaviour are not in the re-written text: "
+                + "; ".join(r["decl_diffs"][:6]))
+    if r["name"].startswith("t"):
+        return decl
     if r.get("compile_o") != 0 or (r.get("written") is not None and r.get("compile_w") is None):
-        return None      # the original is not accepted by gfortran / not compiled in time: not a case (counted)
+        return decl      # the original is not accepted by gfortran / not compiled in time: only the text oracle
     if r.get("run_rc_o") != 0:
-        return None      # original fails at run time (e.g. bounds): not a valid input
+        return decl      # original fails at run time (e.g. bounds): not a valid input
     if r.get("compile_w") != 0:
         return "re-written program does not compile: " + r.get("compile_err_w", "")[-300:]
     if r.get("run_rc_w") != 0:
         return "re-written program fails at run time: " + r.get("out_w", "")[-300:]
     if ints_of(r["out_o"]) != ints_of(r["out_w"]) or r["out_o"].split() != r["out_w"].split():
-        return "stdout differs: original %s / re-written %s" % (r["out_o"].split()[:60], r["out_w"].split()[:60])
-    return None
+        return "stdout differs: original %s / re-written %s%s" % (r["out_o"].split()[:60], r["out_w"].split()[:60],
+                                                                  ("; " + decl) if decl else "")
+    return decl
 
 
 # ---------------------------------------------------------------------------------- witnesses of the known findings
@@ -415,6 +437,32 @@ end program p
   print *, b
 end program p
 """,
+    K_STRIDE: """program p
+  implicit none
+  integer, dimension(10) :: a
+  integer, dimension(5) :: b
+  integer :: i
+  do i = 1, 10
+    a(i) = i
+  end do
+  b = 0
+  where (a(1:9:2) > 4) b(:) = a(2:10:2)
+  print *, b
+end program p
+""",
+    K_DONAME: """program p
+  implicit none
+  integer :: i, j, s
+  s = 0
+  OUTER: do i = 1, 3
+    do j = 1, 3
+      if (j == 2) cycle outer
+      s = s + 1
+    end do
+  end do OUTER
+  print *, s
+end program p
+""",
 }
 WHAT = {
     K_UBOUND: "WHERE whose mask array is declared with a lower bound other than 1 (e.g. 0:4): the loop runs 1..declared "
@@ -422,6 +470,9 @@ WHAT = {
     K_NESTED: "nested WHERE is lowered to an independent inner loop over all elements (outer mask ignored per element)",
     K_REDUCT: "SUM/MAXVAL/MINVAL(b(:)) without dim= inside a WHERE: the section inside the reduction is indexed too "
               "(SUM(b(widx1))); the written code does not compile",
+    K_STRIDE: "strided section in a WHERE (a(1:9:2)): the element index is start + widx - 1, the stride is dropped",
+    K_DONAME: "named DO whose construct name is referenced with another letter case (OUTER: ... cycle outer): the name test "
+              "is case-sensitive, the loop is lowered without its name and the written code does not compile",
 }
 
 
@@ -470,18 +521,23 @@ def run(ctx):
     items, meta = [], {}
     n_b = ctx.pick(3, 60)
     brng = ctx.rng("b")
-    for i in range(n_b):
-        g = gen.SGen(brng, procs=(i % 2 == 0), clash=(i % 5 == 1), allow_cb=(i % 3 == 0))
-        prog = g.program(brng.randint(3, 6))
+    n_bt = ctx.pick(8, 40)
+    for i in range(n_b + n_bt):
+        textonly = i >= n_b
+        g = gen.SGen(brng, procs=(textonly or i % 4 != 3), clash=(i % 5 == 1), allow_cb=(i % 3 == 0))
+        prog = g.program(1 if textonly else brng.randint(3, 6))
+        if g.procs:
+            prog = g.with_state_calls(prog)
         vals = g.store(brng)
-        s = srcl.evaluate(prog, vals, g.bnds(), g.procs)
+        s = srcl.evaluate(prog, vals, g.bnds(), g.procs, mod=g.mod)
         if s[0] != "ok":
             continue
         exp = None
+        alld = g.decls() + (srcl.module_decls(g.mod) if g.procs else [])
         if s[2] < 10 ** 6:
-            exp = [s[1].get(cc, 0) for d in g.decls() for cc in srcl.cells([d])]
-        name = "b%d" % i
-        items.append((name, srcl.program_text(name, prog, g.decls(), vals, g.procs), exp))
+            exp = [s[1].get(cc, 0) for d in alld for cc in srcl.cells([d])]
+        name = ("t%d" if textonly else "b%d") % i
+        items.append((name, srcl.mixcase(srcl.program_text(name, prog, g.decls(), vals, g.procs, g.mod), brng), exp))
         meta[name] = shapes_of(prog, {a: bs for a, (ty, bs, how) in g.arr.items() if all(lb >= 0 for lb, _ in bs)})
     for k, txt in WITNESSES.items():
         items.insert(0, ("a_wit_" + k.split("/")[1].replace("-", "_"), txt, None))
@@ -513,7 +569,7 @@ def run(ctx):
         plan.append(dict(simple=(mode == 0), clash=(i % 7 == 3), defects=(), allow_cb=(mode == 2 and i % 2 == 0)))
     dplan = []
     for i in range(n_def):
-        for dname in ("ubound", "nested", "reduction"):
+        for dname in ("ubound", "nested", "reduction", "stride"):
             lbs = [0, 3, 2] if dname == "ubound" else None
             dplan.append(dict(simple=(i % 2 == 0), clash=False, defects=(dname,), allow_cb=False, lbs=lbs,
                               focus=(("where1",) if i % 2 == 0 else None)))
@@ -589,8 +645,20 @@ def run(ctx):
     if "exc" in bres:
         raise RuntimeError("route (b) failed:\n" + bres["exc"])
     nb_ok = 0
+    ndecl = [0]
     for r in resb:
         if r["name"].startswith("a_wit_"):
+            continue
+        if r["name"].startswith("t"):
+            ctx.count(r["text"], nontrivial=r.get("written") is not None)
+            ctx.hist("route_b", "declaration oracle only (not compiled)")
+            why = judge_b(r)
+            if why is not None:
+                ndecl[0] += 1
+            if why is not None and ndecl[0] <= 3:
+                ctx.violation({"property": "C01", "route": "declarations", "what_fails": why, "original": r["text"],
+                               "re-written": r["written"], "replay": "FortranWriter()(FortranReader().psyir_from_source("
+                               "original)); compare the declarations (props/C01/declcheck.py)"})
             continue
         ctx.count(r["text"], nontrivial=r.get("compile_o") == 0 and r.get("run_rc_o") == 0)
         ctx.hist("route_b", "original compiles and runs" if r.get("compile_o") == 0 and r.get("run_rc_o") == 0
